@@ -30,8 +30,9 @@ JOBS = max(2, min(6, NPROC // 2))
 TLC_JOBS = 4
 MODES = {"p": ["-fp"], "y": ["-fy"], "yD": ["-fyD"], "b2e": ["-fy", "-E", "bmap2extent"], "fo": ["-fy", "-E", "fixes_only"]}
 MODE_ORDER = ["p", "y", "yD", "b2e", "fo"]
-MC_DEVS = (("MC_FsckPreserve_devcoll.cfg", "DevRehashDropsCollision"), ("MC_FsckPreserve_devbound.cfg", "DevRehashDropsBoundary"),
-           ("MC_FsckPreserve_devrebuild.cfg", "DevRebuildDropsLast"), ("MC_FsckPreserve_devcsum.cfg", "DevCsumClearsLeaf"))
+MC_DEVS = (("MC_FsckPreserve_devcoll.cfg", "DevRehashDropsCollision", "TreeUnchanged"), ("MC_FsckPreserve_devbound.cfg", "DevRehashDropsBoundary", "TreeUnchanged"),
+           ("MC_FsckPreserve_devrebuild.cfg", "DevRebuildDropsLast", "TreeUnchanged"), ("MC_FsckPreserve_devcsum.cfg", "DevCsumClearsLeaf", "TreeUnchanged"),
+           ("MC_FsckPreserve_devsbcsum.cfg", "DevSbCsumRefuses", "ExitOK"), ("MC_FsckPreserve_devuninit.cfg", "DevInodeUninitWipes", "TreeUnchanged"))
 
 
 # ------------------------------------------------------------------------------------------------------------------
@@ -169,9 +170,10 @@ def _run_trace(args):
               env={"TRACE": path}, xmx="3g")
     bad = [(int(a), b) for a, b in re.findall(r'<<"BADLINE", (\d+), "(\w+)">>', r.out)]
     div = [int(x) for x in re.findall(r'<<"DIVERGE", (\d+)>>', r.out)]
+    dev = [(int(a), b) for a, b in re.findall(r'<<"DEVIATION", (\d+), "(\w+)">>', r.out)]
     failed = {int(a): re.findall(r'"(\w+)"', b) for a, b in re.findall(r'<<"FAILED", (\d+), \{([^}]*)\}>>', r.out)}
     complete = (r.rc == 0 and r.violated is None and r.error is None)
-    return dict(bad=bad, div=div, failed=failed, complete=complete, error=r.error or r.violated, tail=r.out[-2500:], distinct=r.distinct,
+    return dict(bad=bad, div=div, dev=dev, failed=failed, complete=complete, error=r.error or r.violated, tail=r.out[-2500:], distinct=r.distinct,
                 generated=r.generated, wall=r.wall)
 
 
@@ -197,7 +199,7 @@ def validate(behaviours, work, tag="t", max_states=24, timeout=1500):
         tasks.append((p, n, timeout))
     with cf.ThreadPoolExecutor(max_workers=TLC_JOBS) as ex:
         outs = list(ex.map(_run_trace, tasks))
-    res = {bi: {"bad": [], "div": [], "failed": {}} for bi in range(len(behaviours))}
+    res = {bi: {"bad": [], "div": [], "dev": [], "failed": {}} for bi in range(len(behaviours))}
     tot = dict(distinct=0, generated=0, wall=0.0, broken=[], runs=len(tasks))
     for ch, o, t in zip(chunks, outs, tasks):
         tot["distinct"] += o["distinct"]; tot["generated"] += o["generated"]; tot["wall"] += o["wall"]
@@ -215,6 +217,8 @@ def validate(behaviours, work, tag="t", max_states=24, timeout=1500):
             bi, k = locate(gl); res[bi]["bad"].append((k, inv))
         for gl in o["div"]:
             bi, k = locate(gl); res[bi]["div"].append(k)
+        for gl, name in o["dev"]:
+            bi, k = locate(gl); res[bi]["dev"].append((k, name))
         for gl, fl in o["failed"].items():
             bi, k = locate(gl); res[bi]["failed"][k] = fl
         os.unlink(t[0])
@@ -235,10 +239,10 @@ def model_check(tier, ev, vd):
         elif not r.ok:
             die_broken("TLC failed on %s: %s\n%s" % (c, r.error, r.out[-1500:]))
     ces = []
-    for c, dev in MC_DEVS:
+    for c, dev, inv in MC_DEVS:
         r = T.tlc(mod, os.path.join(SPEC, c), workers=2, timeout=600, xmx="2g")
-        if r.violated != "TreeUnchanged":
-            die_broken("%s (%s = TRUE) did not produce the TreeUnchanged counterexample: the invariant does not bind (%s %s)" % (c, dev, r.violated, r.error))
+        if r.violated != inv:
+            die_broken("%s (%s = TRUE) did not produce the %s counterexample: the invariant does not bind (%s %s)" % (c, dev, inv, r.violated, r.error))
         ces.append(dev)
     ev.cov["literal_model_counterexamples"] = ces
 
@@ -433,6 +437,16 @@ def run(tier):
             seen_keys.add(key)
             vd.violation(key, why(inf, inv, failed), {"img": inf["img"], "scenario": sc, "invariant": inv, "exit": inf["exit"], "failed": failed,
                                                         "e2fsck_out": inf["out"]})
+        # ---- lines that the conformance spec accepts only through a named deviation: known findings, keyed by the deviation
+        devhits = {}
+        for bi, r in res.items():
+            for k, name in r["dev"]:
+                inf = infos[bi][k]
+                devhits.setdefault(name, []).append("%s|%s|%s" % (inf["img"], inf["recipe"] or "-", inf["mode"]))
+                vd.violation(name, "%s taken: %s" % (name, why(inf, name, r["failed"].get(k))),
+                             {"img": inf["img"], "scenario": scenario_of(plans[bi][2], behaviours[bi], k), "deviation": name, "exit": inf["exit"],
+                              "failed": r["failed"].get(k), "e2fsck_out": inf["out"]})
+        ev.cov["deviation_lines"] = {k: {"count": len(v), "first": sorted(set(v))[:12]} for k, v in devhits.items()}
         # ---- evidence
         fs_lines = [(bi, k) for bi in range(len(infos)) for k, i in enumerate(infos[bi]) if i["what"] == "fsck"]
         bad_b = {bi for bi, k, inv, f in confirmed}
@@ -522,6 +536,8 @@ def replay(path):
                 print("    " + i["out"].replace("\n", "\n    ")[-700:])
         print("by hand: cp %s x.img; %s%s; then compare `debugfs -R 'ls -l /' x.img` / rdump with the original" % (
             img, ("patch bytes %s; " % sc["recipe"]["patches"]) if sc["recipe"] else "", "; ".join("e2fsck %s x.img" % " ".join(MODES[m]) for m in sc["modes"])))
+        for k, name in res[0]["dev"]:
+            print("KNOWN-FINDING: property=%s deviation %s taken on this input" % (PID, name))
         bad = [(k, inv) for k, inv in res[0]["bad"] if info[k]["what"] == "fsck"]
         if bad:
             print("VIOLATION property=%s replay=%s  (%s)" % (PID, path, why(info[bad[0][0]], bad[0][1], res[0]["failed"].get(bad[0][0]))))
